@@ -36,13 +36,15 @@ Judge(ln) ==
   ELSE
     LET rootAbsent == St(ln.pre, Tpl.root) = "absent"
         blAbsent == St(ln.pre, Tpl.blacklist) = "absent"
-        MayTouch(p) == p \in FactoryPaths \/ (p = Tpl.blacklist /\ blAbsent) \/ rootAbsent
+        \* ln.facnew: the paths of the two snapshots that lie inside the factory directory (classified by the
+        \* driver; TLC has no string-prefix test): that directory is the program's own
+        MayTouch(p) == p \in FactoryPaths \/ p \in Range(ln.facnew) \/ (p = Tpl.blacklist /\ blAbsent) \/ rootAbsent
     IN (IF /\ \A m \in Range(ln.muts) :
-                 \/ m.path \in FactoryPaths
+                 \/ m.fac                        \* anywhere inside the factory directory (temporary files included)
                  \/ (m.path = Tpl.blacklist /\ blAbsent /\ m.op \in {"create", "write"})
                  \/ rootAbsent
            /\ \A p \in DOMAIN ln.pre \cup DOMAIN ln.post : ~MayTouch(p) => St(ln.post, p) = St(ln.pre, p)
-           /\ DOMAIN ln.post \subseteq DOMAIN ln.pre \cup TemplatePaths
+           /\ DOMAIN ln.post \subseteq DOMAIN ln.pre \cup TemplatePaths \cup {p \in DOMAIN ln.post : p \in Range(ln.facnew)}
         THEN {} ELSE {"C18_UserUntouched"})
        \cup (IF Complete(ln) => (ln.rc = 0 /\ RestoredIn(ln.post)) THEN {}
              ELSE IF ln.kind = "recovery" THEN {"C18_Recovers"} ELSE {"C18_Restored"})
